@@ -1,6 +1,7 @@
 import Acv.Driver.Decode
 import Acv.Driver.ParseOp
 import Acv.Driver.FrontEndOp
+import Acv.Driver.TraceOp
 import Acv.Model.PipelineChecks
 import Acv.Model.Report
 import Acv.Model.Cli
@@ -314,6 +315,7 @@ def runOp (j : Json) : R Json := do
   match ← fldStr j "op" with
   | "c01" => opC01 j
   | "c01y" => opC01y j
+  | "c12t" => opC12t j
   | "c15" => opC01 j
   | "c02" => opC02 j
   | "pipe" => opPipe j
